@@ -25,7 +25,13 @@
   is the identity), patches/fldq-wide-char.diff (the '?'-quoted splitter compares and copies
   whole characters: `tokQLoop` works on `Char`), patches/truncrec-null-line.diff (after `NF = 0`
   on an empty record sub/gsub on `$0` must still work: a statement never fails in the model
-  except for a negative NF or field index).
+  except for a negative NF or field index).  Later repairs the model also follows:
+  patches/nf-always-integer.diff (whatever is stored into NF - an unset variable, "3x", 2.7,
+  the line read by `getline NF` - NF holds the integer the record was adjusted to: `Op.setnf n`),
+  patches/recomp-field-table-size-wrap.diff (`maxFlds`, `growFails`: ENOMEM and a cleared record),
+  patches/byref-param-unassigned-no-copyback.diff (passing `$j`/NF to an `&` parameter that the
+  function only reads is a read: `Op.read`), patches/nf-assign-stale-old-value.diff (value
+  lifetime only, invisible in the model).
 
   Zero-length tokens: in the non-regex modes the C stores a NULL pointer for an empty token.
   A zero-length span's pointer is never dereferenced (every reader copies `len` characters),
@@ -79,6 +85,7 @@ deriving Repr, DecidableEq
 inductive Err where
   | einval   -- negative value into NF
   | eposidx  -- negative positional index
+  | enomem   -- the field table cannot be grown to the requested size
 deriving Repr, DecidableEq
 
 /-- regex oracle: `m fs line from` = the match of the regular expression compiled from the FS
@@ -326,6 +333,16 @@ def setNF (e : Env) (r : Rec) (n : Int) : Except Err Rec :=
     if k ≤ r.flds.length then .ok { truncrec e r k with nf := n }
     else .ok { setfld e r k [] with nf := n }
 
+/-- the largest field table: `HAWK_SIZEOF(*inrec.flds) * max` (24-byte entries) must not wrap
+    around a 64-bit size (recomp_record_fields refuses it with ENOMEM; see
+    patches/recomp-field-table-size-wrap.diff).  Allocation failures below this bound are not
+    modelled (C10). -/
+def maxFlds : Nat := (2 ^ 64 - 1) / 24
+
+/-- recomp_record_fields has to grow the field table to `k` entries and cannot: hawk_rtx_setrec
+    then fails and its error path clears the record (hawk_rtx_clrrec) -/
+def growFails (r : Rec) (k : Nat) : Bool := decide (r.flds.length < k ∧ maxFlds < k)
+
 /-- `$idx = s` (do_assignment_positional) -/
 def assignPos (m : Matcher) (e : Env) (r : Rec) (idx : Int) (s : Str) : Except Err Rec :=
   if idx < 0 then .error .eposidx
@@ -378,11 +395,20 @@ inductive Op where
   | readnf                         -- evaluate NF
 deriving Repr, DecidableEq
 
-/-- one statement.  A run-time error (negative NF) leaves the state as it was. -/
+/-- one statement.  A negative NF is rejected and leaves the state as it was; a field number or
+    NF beyond `maxFlds` fails with ENOMEM and leaves the record cleared.  `.setnf n` stands for
+    every way of storing into NF (`NF = v` with v an integer, a float, a string or an unset
+    variable, `++NF`, `NF += k`, `getline NF`): set_global converts the value with
+    hawk_rtx_valtoint and, with patches/nf-always-integer.diff, NF holds that integer `n`. -/
 def step (m : Matcher) (st : St) : Op → St
   | .set0 s => { st with r := setrec0 m st.e st.r s }
-  | .setf i s => if i = 0 then { st with r := setrec0 m st.e st.r s } else { st with r := setfld st.e st.r i s }
-  | .setnf n => match setNF st.e st.r n with
+  | .setf i s =>
+    if i = 0 then { st with r := setrec0 m st.e st.r s }
+    else if growFails st.r i then { st with r := clrrec st.r }
+    else { st with r := setfld st.e st.r i s }
+  | .setnf n =>
+    if 0 ≤ n ∧ growFails st.r n.toNat then { st with r := clrrec st.r }
+    else match setNF st.e st.r n with
     | .ok r => { st with r := r }
     | .error _ => st
   | .rewrite s => { st with r := setrec0 m st.e st.r s }
@@ -391,7 +417,7 @@ def step (m : Matcher) (st : St) : Op → St
   | .fs y => { st with e := { st.e with fs := y } }
   | .strip b => { st with e := { st.e with strip := b } }
   | .ofmt _ => st
-  | .read _ => st
+  | .read _ => st     -- also: passing `$j` or NF to an `&` parameter the function does not assign
   | .readnf => st
 
 def run (m : Matcher) (ops : List Op) : St := ops.foldl (step m) {}
